@@ -91,6 +91,53 @@ func runFuzz(r *prng.R, s *out.Sink, tier string) {
 	fuzzBackends(r, s, dense)
 	fuzzPSObjects(r, s, dense)
 	fuzzBLSVerifier(r, s, dense)
+	fuzzSilentQuota(r, s)
+}
+
+// fuzzSilentQuota: a silent-mode node (message buffer in front of the dispatcher) whose peer 2 exceeds every quota of the
+// buffer with well-formed traffic — more distinct not-yet-started topics than a sender may have in flight, then more
+// messages on one topic than a sender may buffer. Excess traffic is shed; the node goes on serving: a message of another
+// peer and the node's own first send on one of the topics return.
+func fuzzSilentQuota(r *prng.R, s *out.Sink) {
+	ids := []uint16{1, 2, 3}
+	membership := identityMembership(ids)
+	kgf, sf := factories("bls", 0)
+	node := threshold.SilentScheme(1, nopLogger{}, kgf, sf, 1, func(uint8, []byte, []byte, ...uint16) {},
+		func() map[tss.UniversalID]tss.PartyID { return membership }, func(topic []byte, expected int) []uint16 { return ids[:expected] })
+	payload := frame(1, 1, []byte{9, 9})
+	topic := func(i int) []byte { return sha([]byte(fmt.Sprintf("quota-topic-%d", i))) }
+	hang := false
+	step := func(kind, what string, f func()) {
+		if hang {
+			return
+		}
+		before := len(s.Monitor)
+		guarded(s, kind, what, f)
+		if len(s.Monitor) > before {
+			hang = true
+		}
+	}
+	step("silent/topic-quota-flood", "peer 2: one message on each of 10 010 distinct topics", func() {
+		for i := 0; i < 10010; i++ {
+			node.HandleMessage(&tss.IncMessage{Data: payload, Source: 2, MsgType: uint8(tss.MsgTypeMPC), Topic: topic(i)})
+		}
+	})
+	step("silent/after-topic-quota/other-peer", "peer 3: one message after peer 2 exceeded its topic quota", func() {
+		node.HandleMessage(&tss.IncMessage{Data: payload, Source: 3, MsgType: uint8(tss.MsgTypeMPC), Topic: topic(5)})
+	})
+	step("silent/message-quota-flood", "peer 3: 300 messages on one topic", func() {
+		for i := 0; i < 300; i++ {
+			node.HandleMessage(&tss.IncMessage{Data: payload, Source: 3, MsgType: uint8(tss.MsgTypeMPC), Topic: topic(7)})
+		}
+	})
+	step("silent/after-quotas/sign", "the node's own Sign on a fresh topic after both floods (its pre-signing traffic goes through the buffer's Send)", func() {
+		ctx, cancel := context.WithTimeout(context.Background(), 300*time.Millisecond)
+		defer cancel()
+		node.Sign(ctx, sha([]byte("m")), "quota-own-topic")
+	})
+	step("silent/after-quotas/other-peer", "peer 2: one more message after everything", func() {
+		node.HandleMessage(&tss.IncMessage{Data: payload, Source: 2, MsgType: uint8(tss.MsgTypeMPC), Topic: topic(20000)})
+	})
 }
 
 // ---- A: Scheme.HandleMessage in every session state ------------------------------------------------
